@@ -253,6 +253,9 @@ def obligations(tier):
                                       mk_translate(name, ax, 0.0, 2.509, keep, params=M.BURIED), code=code_pipe,
                                       bounds='%s with Nmin/Nmax lowered to 6/30 shifted by t = k/1000 along %s, t in [0,2.509]' % (name, axn),
                                       claim_doc='as O1-translation', max_paths=5000, wall_s=170 if tier == 'quick' else 1200))
+    obs.append(Obligation('O3-coordinate-fields-read-in-full', H.o_coordinate_fields, code=['propka/atom.py:Atom.set_properties', 'propka/atom.py:Atom.__init__'],
+                          bounds='one ATOM record, one coordinate field (x, y or z) with its 4 leading characters over {blank, -, 0-9} and 3 decimals symbolic: every %8.3f rendering from -999.999 to 9999.999',
+                          claim_doc='the parsed coordinate is the number written in the field (a translation to the ends of the PDB range is not folded, mirrored or truncated)', max_paths=2000))
     # supplied hydrogens that are not where the program would put them (X-H 0.86 A), keep-protons
     for name in (['tri_ARG', 'pair_ASP_ARG'] if tier == 'quick' else ['tri_ARG', 'pair_ASP_ARG', 'tri_HIS', 'tri_ASN', 'pep8', 'pair_GLU_ARG_TYR']):
         for ax, axn in axes[:3]:
